@@ -41,6 +41,7 @@ def run(ctx):
         cleared = add._idxcell_outlet is None and add._idxinlets is None and sub._idxcell_outlet is None
         cells = [int(v) for v in rng.integers(0, nr * nc, size=6)]
         recs.append({"f1": f1, "f2": f2, "a1": a1, "add": [int(v) for v in add.idxcells_area], "sub": [int(v) for v in sub.idxcells_area],
+                     "addf": [int(v) for v in add.idxcells_area_filled], "subf": [int(v) for v in sub.idxcells_area_filled],
                      "isin": [[k, bool(c1.isin(k))] for k in cells], "isinf": [[k, bool(c1.isin(k, filled=True))] for k in cells],
                      "same": bool(same), "cleared": bool(cleared), "grid": {"nr": nr, "nc": nc, "fd": fd}})
         ctx.count({"fd": fd, "f1": f1, "f2": f2}, True)
@@ -52,10 +53,22 @@ def run(ctx):
     if not res.tuples("VALIDATED"):
         raise Machinery("CatchAlgebraTrace did not complete:\n" + res.out[-2000:])
     ctx.binding_demo("CatchAlgebraTrace", "MC_CatchAlgebraTrace.cfg", path, binding.catchalgebra, timeout=1800)
+    stale = {}
     for line in res.tuples("REJECT"):
         parts = line.strip("<>").split(",")
         r = recs[int(parts[1]) - 1]
-        ctx.violation("catchment-algebra:" + parts[2].strip().strip('"'), "record rejected", r)
+        clause = parts[2].strip().strip('"')
+        if clause.startswith("filled-area-of-"):
+            # Catchment.__add__ / __sub__ keep the left operand's filled area: the result's idxcells_area_filled does not contain its
+            # idxcells_area, and intersect(filled=True) / delineate_boundary of the result use the stale cells.  Not a listed property
+            # and the repair (re-running the hole filling of delineate_area) is more than a minimal patch: reported, not alarmed.
+            stale[clause] = stale.get(clause, 0) + 1
+            continue
+        ctx.violation("catchment-algebra:" + clause, "record rejected", r)
+    if stale:
+        print("EXTENSION-FINDING: Catchment + / - leave idxcells_area_filled of the left operand in the result (%s)" %
+              ", ".join("%s: %d records" % kv for kv in sorted(stale.items())))
+        ctx.part("extension_findings", **stale)
     ctx.traces += len(recs)
     ctx.sample({"record": {k: recs[0][k] for k in ("f1", "f2", "add", "sub")}})
     ctx.rule = "random flow grids up to 7x7, two delineated catchments each: union, difference, membership validated by CatchAlgebraTrace.tla"
